@@ -394,7 +394,8 @@ AllIoFns == WriteFns \cup ReadFns \cup ArgFns
 \* Random tier: constructs of the listed findings are left out (pinned in the exhaustive tier)
 Excluded_F_C13_2 == DefaultLogWriters        \* log.Default() is the host's logger
 Excluded_F_C13_3 == {"flag.pkg"}             \* flag.Parse() reads the host's command line
-SimIoFns == AllIoFns \ (Excluded_F_C13_2 \cup Excluded_F_C13_3)
+\* (F-C13-2 and F-C13-3 are repaired in /repo (f0fd1d9, 7056755): the simulation draws from every function again)
+SimIoFns == AllIoFns
 
 Sink(fn) == IF fn \in FmtWriters THEN "optOut" ELSE IF fn \in Builtins THEN PrintSink ELSE "optErr"
 ASSUME SinkIsOption == \A fn \in WriteFns : Sink(fn) \in {"optOut", "optErr"}
